@@ -501,8 +501,11 @@ class SQLiteOrchestrator(BaseOrchestrator):
             )
             to_purge = [row[0] for row in cursor.fetchall()]
             cursor.close()
+            # release_waiters writes through its own connection: it has to run before
+            # this connection takes the write lock with its first DELETE
             for invocation_id in to_purge:
                 self.release_waiters(invocation_id)
+            for invocation_id in to_purge:
                 conn.execute(
                     f"DELETE FROM {self.tables.INVOCATIONS} WHERE invocation_id = ?",
                     (invocation_id,),
